@@ -1,5 +1,5 @@
 """C15 - sequence representations convert losslessly and invert one another (structural clauses)."""
-import ast
+import ast, copy
 from ..affine import Lin, decide, entails
 from ..front import dotted, const_value, unparse, walk_no_nested, parent_map, kwarg
 from ..core import holds, violation, unrecognised
@@ -135,7 +135,25 @@ def characters_rules(repo):
     elif not any("'N'" in t for t in tb):
         out.append(violation("DECODE", fi, role, "all-zero columns are not decoded to 'N'", arm[0]))
     else:
-        out.append(unrecognised("DECODE", fi, role, "; ".join(tb + te)))
+        # named deviation: the 'N' predicate is computed from ties between entries (== column maximum) instead of from
+        # zero-ness.  Ties cannot tell an all-zero column from a one-hot column of a one-letter alphabet.
+        from ..rules import inline_locals
+        nd = [s_ for s_ in arm[0].body if isinstance(s_, ast.Assign) and unparse(s_.targets[0]) == "n_inds"]
+        pred = ""
+        if nd:
+            e = copy.deepcopy(nd[0].value)
+            for _ in range(3):
+                class _I(ast.NodeTransformer):
+                    def visit_Name(self, n):
+                        d = inline_locals(fi, n, 1) if n.id not in fi.params else n
+                        return d if d is not n else n
+                e = _I().visit(e)
+            pred = unparse(e)
+        if nd and ".max(" in pred and "len(alphabet)" in pred and "== 0" not in pred.replace("axis=0", ""):
+            out.append(violation("DECODE", fi, role, "the 'N' test `%s` counts entries equal to the column maximum: with a one-letter alphabet every "
+                                 "one-hot column satisfies it and decodes to 'N' (all-zero-ness is `pwm.sum(axis=0) == 0`)" % pred[:140], nd[0]))
+        else:
+            out.append(unrecognised("DECODE", fi, role, "; ".join(tb + te)))
     return out
 
 
